@@ -424,3 +424,29 @@ def validate_trace(run, module, cfg, events, chunk=20000, maxpar=8, env=None, ti
     run.cov["tlc_runs"].append({"spec": module, "generated": gen, "distinct": dist, "wall_s": round(wall, 1), "events": len(events)})
     run.cov["traces_validated_against_impl"] += len(events)
     return mism
+
+
+def tlc_cases(module, cfg, out_path, tag="CASE", **kw):
+    """Run a generator spec and stream its PrintT(<<tag, ToJson(x)>>) lines into an ndjson file.
+    Returns (TlcResult, number of cases).  -simulate output may contain duplicates: de-duplicated."""
+    pre = '<<"%s", "' % tag
+    n = [0]
+    seen = set() if kw.get("simulate") else None
+    with open(out_path, "w") as f:
+
+        def cb(ln):
+            if ln.startswith(pre) and ln.endswith('">>'):
+                s = json.loads(ln[len(pre) - 1 : -2])
+                if seen is not None:
+                    h = hashlib.sha1(s.encode()).digest()
+                    if h in seen:
+                        return True
+                    seen.add(h)
+                f.write(s)
+                f.write("\n")
+                n[0] += 1
+                return True
+            return False
+
+        r = tlc(module, cfg, line_cb=cb, **kw)
+    return r, n[0]
